@@ -13,18 +13,23 @@
     is getCertificateFromCache with one cache state per read; with all reads on one state it is
     C03's [from_cache]; it is the result of the thread program [prog_from_cache]; its answer is
     sound with respect to the state of the read that produced it. *)
-From CM Require Import Lib.Str Gen.Consts Cache.Model Cache.AMapFacts Cache.Proofs Cache.Sched
-  Lookup.Model Lookup.Proofs Lookup.Check Lookup.SpecProofs.
+From CM Require Import Lib.Str Cache.Model Cache.AMapFacts Cache.Proofs Cache.Sched
+  Lookup.Model Lookup.Proofs.
 From Coq Require Import Arith Lia.
 Open Scope nat_scope.
 
-(** ---- vocabulary ---- *)
-(** the cache after the scheduler has run [sched] on the threads [pool], from the empty cache *)
-Definition state_after (cap : nat) (pool : list prog) (sched : list nat) : state :=
-  fst (run_sched cap sched (init, pool)).
+(** ---- vocabulary ----
+    C12's schedules run over [dstate] = the two maps together with the capacity configured at
+    that moment (Cache.SetOptions is one of the steps a thread can take). *)
+(** the cache (with its current capacity) after the scheduler has run [sched] on the threads
+    [pool], from the empty cache with initial capacity [cap0] *)
+Definition dstate_after (cap0 : nat) (pool : list prog) (sched : list nat) : dstate :=
+  fst (run_sched sched (dinit cap0, pool)).
 (** ... and after the first [k] scheduling decisions only *)
-Definition state_at (cap : nat) (pool : list prog) (sched : list nat) (k : nat) : state :=
-  state_after cap pool (firstn k sched).
+Definition dstate_at (cap0 : nat) (pool : list prog) (sched : list nat) (k : nat) : dstate :=
+  dstate_after cap0 pool (firstn k sched).
+Definition state_after cap0 pool sched : state := d_st (dstate_after cap0 pool sched).
+Definition state_at cap0 pool sched k : state := d_st (dstate_at cap0 pool sched k).
 Definition wf_pool (names_of : hash -> list name) (pool : list prog) : Prop :=
   Forall (wf_prog names_of) pool.
 
@@ -77,16 +82,13 @@ Record HandshakeGuarantees (names_of : hash -> list name) (cap : nat) (s : state
     let n := normalize lower is_space sni in
     if is_nil n then idx s ip = []
     else Forall (fun m' => idx s m' = []) (n :: wildcard_candidates n);
-  (* C03_spec_ok_of_model: the run-time monitor accepts the model's answer on this cache *)
-  hg_spec : forall lower is_space c,
-    l_state c = s -> l_cap c = cap ->
-    (forall h x, alookup h (cache s) = Some x -> at_complete (attr_get (l_attrs c) h) = true) ->
-    (forall lc, loaded (l_env c) = Some lc -> l_loaded_complete c = true) ->
-    spec_lookup lower is_space (with_obs c (obs_of c (run_lookup lower is_space c))) = true;
   (* what C12 itself says of this state and C03 uses: getAllMatchingCerts is exact *)
   hg_matching_exact : forall n c,
     In c (get_all_matching_certs s n) <-> (alookup (c_hash c) (cache s) = Some c /\ In n (c_names c))
 }.
+(** the guarantees for a cache with its run-time capacity *)
+Definition DGuarantees (names_of : hash -> list name) (d : dstate) : Prop :=
+  HandshakeGuarantees names_of (d_cap d) (d_st d).
 
 (** C12's invariant is all that C03 needs *)
 Theorem guarantees_of_inv names_of cap s : Inv names_of cap s -> HandshakeGuarantees names_of cap s.
@@ -100,41 +102,42 @@ Proof.
   - intros. eapply ip_preferred_without_sni; eauto.
   - intros. eapply unexpired_supported_preferred; eauto.
   - intros. eapply error_only_if_unlisted; eauto.
-  - intros lower is_space c Hs Hc Hcompl Hl. apply (spec_lookup_of_model lower is_space names_of c).
-    + rewrite Hs, Hc. exact HI.
-    + rewrite Hs. exact Hcompl.
-    + exact Hl.
   - intros n c. apply (lookup_exact names_of cap s HI).
 Qed.
 
 (** ---- C12 supplies the invariant ---- *)
-Lemma state_after_inv names_of cap pool sched :
-  wf_pool names_of pool -> Inv names_of cap (state_after cap pool sched).
-Proof. intros Hwf. unfold state_after. apply sched_inv; [apply inv_init | exact Hwf]. Qed.
+Lemma dstate_after_inv names_of cap0 pool sched :
+  wf_pool names_of pool -> DInv names_of (dstate_after cap0 pool sched).
+Proof. intros Hwf. unfold dstate_after. apply sched_inv; [apply dinv_init | exact Hwf]. Qed.
+Lemma state_after_inv names_of cap0 pool sched :
+  wf_pool names_of pool ->
+  Inv names_of (d_cap (dstate_after cap0 pool sched)) (state_after cap0 pool sched).
+Proof. apply dstate_after_inv. Qed.
 
-(** every schedule of every pool *)
-Theorem guarantees_every_schedule names_of cap pool sched :
-  wf_pool names_of pool -> HandshakeGuarantees names_of cap (state_after cap pool sched).
-Proof. intros Hwf. apply guarantees_of_inv, state_after_inv, Hwf. Qed.
+(** every schedule of every pool (threads may change the capacity on the way: the guarantees
+    hold with the capacity configured at that moment) *)
+Theorem guarantees_every_schedule names_of cap0 pool sched :
+  wf_pool names_of pool -> DGuarantees names_of (dstate_after cap0 pool sched).
+Proof. intros Hwf. apply guarantees_of_inv, dstate_after_inv, Hwf. Qed.
 
 (** ... at every instant of it *)
-Theorem guarantees_every_instant names_of cap pool sched k :
-  wf_pool names_of pool -> HandshakeGuarantees names_of cap (state_at cap pool sched k).
+Theorem guarantees_every_instant names_of cap0 pool sched k :
+  wf_pool names_of pool -> DGuarantees names_of (dstate_at cap0 pool sched k).
 Proof. intros Hwf. apply guarantees_every_schedule, Hwf. Qed.
 
-(** the instants of a schedule are the prefixes: running on from [state_at .. k] with the
-    threads as they are then gives [state_after] *)
-Lemma run_sched_app cap a b cfg : run_sched cap (a ++ b) cfg = run_sched cap b (run_sched cap a cfg).
+(** the instants of a schedule are the prefixes: running on from [dstate_at .. k] with the
+    threads as they are then gives [dstate_after] *)
+Lemma run_sched_app a b cfg : run_sched (a ++ b) cfg = run_sched b (run_sched a cfg).
 Proof. unfold run_sched. apply fold_left_app. Qed.
-Lemma state_at_is_intermediate cap pool sched k :
-  state_after cap pool sched =
-  fst (run_sched cap (skipn k sched) (run_sched cap (firstn k sched) (init, pool))) /\
-  state_at cap pool sched k = fst (run_sched cap (firstn k sched) (init, pool)).
+Lemma dstate_at_is_intermediate cap0 pool sched k :
+  dstate_after cap0 pool sched =
+  fst (run_sched (skipn k sched) (run_sched (firstn k sched) (dinit cap0, pool))) /\
+  dstate_at cap0 pool sched k = fst (run_sched (firstn k sched) (dinit cap0, pool)).
 Proof.
-  split; [|reflexivity]. unfold state_after. rewrite <- run_sched_app, firstn_skipn. reflexivity.
+  split; [|reflexivity]. unfold dstate_after. rewrite <- run_sched_app, firstn_skipn. reflexivity.
 Qed.
 
-(** every sequential history, and every point of it *)
+(** every sequential history with a fixed capacity, and every point of it *)
 Theorem guarantees_every_history names_of cap ops :
   Forall (wf_op names_of) ops -> HandshakeGuarantees names_of cap (run cap init ops).
 Proof. intros Hwf. apply guarantees_of_inv, run_inv; [apply inv_init | exact Hwf]. Qed.
@@ -144,12 +147,16 @@ Proof.
   intros Hwf. eapply Forall_impl; [|apply (trace_inv names_of cap ops init (inv_init _ _) Hwf)].
   intros s. apply guarantees_of_inv.
 Qed.
+(** every sequential history that may also change the capacity (SetOptions), query, scan, stop *)
+Theorem guarantees_every_dhistory names_of cap0 ops :
+  Forall (wf_dop names_of) ops -> DGuarantees names_of (drun (dinit cap0) ops).
+Proof. intros Hwf. apply guarantees_of_inv, (drun_inv names_of); [apply dinv_init | exact Hwf]. Qed.
 
 (** a schedule from any state satisfying the invariant (e.g. the state an earlier schedule or
     history left behind) *)
-Theorem guarantees_schedule_from names_of cap s pool sched :
-  Inv names_of cap s -> wf_pool names_of pool ->
-  HandshakeGuarantees names_of cap (fst (run_sched cap sched (s, pool))).
+Theorem guarantees_schedule_from names_of d pool sched :
+  DInv names_of d -> wf_pool names_of pool ->
+  DGuarantees names_of (fst (run_sched sched (d, pool))).
 Proof. intros HI Hwf. apply guarantees_of_inv, sched_inv; assumption. Qed.
 
 (** ================= the lookup is not atomic: one cache state per read ================= *)
@@ -308,7 +315,7 @@ Section NonAtomic.
 
   (** ---- the same as a thread program of C12's scheduler: one [PReadName] per selectCert;
       the answer is handed to the continuation [K] (the rest of the handshake) ---- *)
-  Definition answer := option (cert * bool * name).
+  Definition lk_answer := option (cert * bool * name).
   Fixpoint prog_first_select (cands : list name) (K : option (name * cert) -> prog) : prog :=
     match cands with
     | [] => K None
@@ -317,12 +324,12 @@ Section NonAtomic.
                                       | None => prog_first_select r K
                                       end)
     end.
-  Definition prog_try_fallback (cfg : config) (K : answer -> prog) : prog :=
+  Definition prog_try_fallback (cfg : config) (K : lk_answer -> prog) : prog :=
     if is_nil (fallback_name cfg) then K None
     else let f := normalize (fallback_name cfg) in
          PReadName f (fun l => match default_select sup valid l with
                                | Some c => K (Some (c, false, f)) | None => K None end).
-  Definition prog_from_cache (cfg : config) (sni localip : str) (K : answer -> prog) : prog :=
+  Definition prog_from_cache (cfg : config) (sni localip : str) (K : lk_answer -> prog) : prog :=
     let n := normalize sni in
     if is_nil n then
       PReadName localip (fun l =>
@@ -366,36 +373,37 @@ Section NonAtomic.
     - apply prog_first_select_wf. intros [[m c]|]; [apply HK | apply prog_try_fallback_wf, HK].
   Qed.
 
-  (** the thread's own view: its j-th step runs on the cache [st j] the scheduler shows it then
-      (whatever the other threads did in between) *)
-  Fixpoint feed (cap : nat) (st : nat -> state) (j fuel : nat) (p : prog) : prog :=
+  (** the thread's own view: its j-th step runs on the cache (and capacity) [dst j] the scheduler
+      shows it then (whatever the other threads did in between) *)
+  Fixpoint feed (dst : nat -> dstate) (j fuel : nat) (p : prog) : prog :=
     match fuel with
     | 0 => p
-    | S f => feed cap st (S j) f (snd (thread_step cap (st j) p))
+    | S f => feed dst (S j) f (snd (thread_step (dst j) p))
     end.
-  Lemma feed_add cap st a : forall j b p, feed cap st j (a + b) p = feed cap st (j + a) b (feed cap st j a p).
+  Lemma feed_add dst a : forall j b p, feed dst j (a + b) p = feed dst (j + a) b (feed dst j a p).
   Proof.
     induction a as [|a IH]; intros j b p; cbn [feed Nat.add]; [rewrite Nat.add_0_r; reflexivity|].
     rewrite IH. replace (S j + a) with (j + S a) by lia. reflexivity.
   Qed.
+  Notation st_of dst := (fun j => d_st (dst j)).
 
-  Lemma feed_first_select cap st cands K : forall j,
-    match na_first_select st j cands with
-    | Some r => exists fuel, fuel <= length cands /\ feed cap st j fuel (prog_first_select cands K) = K (Some r)
-    | None => feed cap st j (length cands) (prog_first_select cands K) = K None
+  Lemma feed_first_select dst cands K : forall j,
+    match na_first_select (st_of dst) j cands with
+    | Some r => exists fuel, fuel <= length cands /\ feed dst j fuel (prog_first_select cands K) = K (Some r)
+    | None => feed dst j (length cands) (prog_first_select cands K) = K None
     end.
   Proof.
     induction cands as [|m r IH]; intros j; cbn [na_first_select prog_first_select length]; [reflexivity|].
-    unfold Model.select_cert. destruct (default_select sup valid (get_all_matching_certs (st j) m)) as [c|] eqn:E.
+    unfold Model.select_cert. destruct (default_select sup valid (get_all_matching_certs (d_st (dst j)) m)) as [c|] eqn:E.
     - exists 1. split; [lia|]. cbn [feed thread_step snd]. rewrite E. reflexivity.
-    - specialize (IH (S j)). fold (select_cert (st j) m) in E.
-      destruct (na_first_select st (S j) r) as [x|].
+    - specialize (IH (S j)).
+      destruct (na_first_select (st_of dst) (S j) r) as [x|].
       + destruct IH as (fuel & Hle & Hf). exists (S fuel). split; [lia|].
-        cbn [feed thread_step snd]. unfold Model.select_cert in E. rewrite E. exact Hf.
-      + cbn [feed thread_step snd]. unfold Model.select_cert in E. rewrite E. exact IH.
+        cbn [feed thread_step snd]. rewrite E. exact Hf.
+      + cbn [feed thread_step snd]. rewrite E. exact IH.
   Qed.
-  Lemma feed_try_fallback cap st cfg K j :
-    exists fuel, feed cap st j fuel (prog_try_fallback cfg K) = K (na_try_fallback st j cfg).
+  Lemma feed_try_fallback dst cfg K j :
+    exists fuel, feed dst j fuel (prog_try_fallback cfg K) = K (na_try_fallback (st_of dst) j cfg).
   Proof.
     unfold prog_try_fallback, na_try_fallback. destruct (is_nil (fallback_name cfg)).
     - exists 0. reflexivity.
@@ -403,54 +411,57 @@ Section NonAtomic.
       destruct (default_select sup valid _); reflexivity.
   Qed.
 
-  (** the program hands [na_from_cache st] to its continuation: the function above IS what the
-      thread computes under arbitrary interference *)
-  Theorem prog_from_cache_computes cap st cfg sni ip K :
-    exists fuel, feed cap st 0 fuel (prog_from_cache cfg sni ip K) = K (na_from_cache st cfg sni ip).
+  (** the program hands [na_from_cache] (of the states it was shown) to its continuation: the
+      function above IS what the thread computes under arbitrary interference *)
+  Theorem prog_from_cache_computes dst cfg sni ip K :
+    exists fuel, feed dst 0 fuel (prog_from_cache cfg sni ip K) = K (na_from_cache (st_of dst) cfg sni ip).
   Proof.
     unfold prog_from_cache, na_from_cache. destruct (is_nil (normalize sni)).
     - unfold Model.select_cert.
-      destruct (default_select sup valid (get_all_matching_certs (st 0) ip)) as [c|] eqn:E.
+      destruct (default_select sup valid (get_all_matching_certs (d_st (dst 0)) ip)) as [c|] eqn:E.
       + exists 1. cbn [feed thread_step snd]. rewrite E. reflexivity.
       + destruct (is_nil (default_name cfg)).
-        * destruct (feed_try_fallback cap st cfg K 1) as [fuel Hf]. exists (S fuel).
+        * destruct (feed_try_fallback dst cfg K 1) as [fuel Hf]. exists (S fuel).
           cbn [feed thread_step snd]. rewrite E. exact Hf.
-        * destruct (default_select sup valid (get_all_matching_certs (st 1) (normalize (default_name cfg)))) as [c|] eqn:Ed.
+        * destruct (default_select sup valid (get_all_matching_certs (d_st (dst 1)) (normalize (default_name cfg)))) as [c|] eqn:Ed.
           -- exists 2. cbn [feed thread_step snd]. rewrite E. cbn [thread_step snd]. rewrite Ed. reflexivity.
-          -- destruct (feed_try_fallback cap st cfg K 2) as [fuel Hf]. exists (S (S fuel)).
+          -- destruct (feed_try_fallback dst cfg K 2) as [fuel Hf]. exists (S (S fuel)).
              cbn [feed thread_step snd]. rewrite E. cbn [thread_step snd]. rewrite Ed. exact Hf.
     - set (cands := normalize sni :: wildcard_candidates (normalize sni)).
       set (K' := fun r : option (name * cert) => match r with
                    | Some (m, c) => K (Some (c, true, m)) | None => prog_try_fallback cfg K end).
-      pose proof (feed_first_select cap st cands K' 0) as H.
-      destruct (na_first_select st 0 cands) as [[m c]|].
+      pose proof (feed_first_select dst cands K' 0) as H.
+      destruct (na_first_select (st_of dst) 0 cands) as [[m c]|].
       + destruct H as (fuel & _ & Hf). exists fuel. exact Hf.
-      + destruct (feed_try_fallback cap st cfg K (length cands)) as [fuel Hf].
+      + destruct (feed_try_fallback dst cfg K (length cands)) as [fuel Hf].
         exists (length cands + fuel). rewrite feed_add.
-        exact (eq_trans (f_equal (feed cap st (length cands) fuel) H) Hf).
+        exact (eq_trans (f_equal (feed dst (length cands) fuel) H) Hf).
   Qed.
 End NonAtomic.
 
 (** in a schedule the cache a thread's step runs on is the cache at that instant of the
     schedule (by definition of [sched_step]); C12 gives [Inv] there, which is the hypothesis
-    [st_inv] of [na_lookup_sound] *)
-Lemma sched_step_runs_on_current cap s pool i p :
+    [st_inv] of [na_lookup_sound] -- the capacity may differ from read to read, which the
+    soundness of the answer does not depend on *)
+Lemma sched_step_runs_on_current d pool i p :
   nth_error pool i = Some p ->
-  sched_step cap (s, pool) i = (fst (thread_step cap s p), set_nth i (snd (thread_step cap s p)) pool).
+  sched_step (d, pool) i = (fst (thread_step d p), set_nth i (snd (thread_step d p)) pool).
 Proof. intros H. unfold sched_step. cbn [fst snd]. rewrite H. reflexivity. Qed.
 
-Theorem na_lookup_sound_in_schedule lower is_space sup valid names_of cap pool sched (t : nat -> nat) cfg sni ip c b v :
+Theorem na_lookup_sound_in_schedule lower is_space sup valid names_of cap0 pool sched (t : nat -> nat) cfg sni ip c b v :
   wf_pool names_of pool ->
-  na_from_cache lower is_space sup valid (fun j => state_at cap pool sched (t j)) cfg sni ip = Some (c, b, v) ->
+  na_from_cache lower is_space sup valid (fun j => state_at cap0 pool sched (t j)) cfg sni ip = Some (c, b, v) ->
   let n := normalize lower is_space sni in
-  exists j, found_at sup valid (fun j => state_at cap pool sched (t j)) j c v /\
+  exists j, found_at sup valid (fun j => state_at cap0 pool sched (t j)) j c v /\
     ((b = true /\ n <> [] /\ covers v n) \/
      (b = true /\ n = [] /\ v = ip) \/
      (b = false /\ n = [] /\ default_name cfg <> [] /\ v = normalize lower is_space (default_name cfg)) \/
      (b = false /\ fallback_name cfg <> [] /\ v = normalize lower is_space (fallback_name cfg))).
 Proof.
-  intros Hwf H. eapply (na_lookup_sound lower is_space sup valid names_of cap); [|exact H].
-  intros j. apply state_after_inv, Hwf.
+  intros Hwf H.
+  eapply (na_lookup_sound lower is_space sup valid names_of 0); [|exact H].
+  intros j. apply (inv_weaken names_of (d_cap (dstate_at cap0 pool sched (t j)))).
+  apply (dstate_after_inv names_of cap0 pool (firstn (t j) sched) Hwf).
 Qed.
 
 (** ================= non-vacuity: a pool of five threads under one schedule ================= *)
@@ -458,10 +469,10 @@ Definition x_ax : name := [97; 46; 120]%N.           (* a.x *)
 Definition x_wx : name := [42; 46; 120]%N.           (* *.x *)
 Definition x_ip : name := [49; 46; 50]%N.            (* "1.2" stands for an IP literal *)
 Definition x_fb : name := [102; 46; 121]%N.          (* f.y *)
-Definition x_e1 := Cert [101; 49]%N [x_ax] true [] [] 0%Z [].           (* e1: a.x, expired *)
-Definition x_e2 := Cert [101; 50]%N [x_ax] true [] [] 0%Z [].           (* e2: a.x, its renewal *)
-Definition x_w := Cert [119]%N [x_wx; x_ip] false [] [] 0%Z [].         (* w: *.x and the IP *)
-Definition x_f := Cert [102]%N [x_fb] false [] [] 0%Z [].               (* f: f.y *)
+Definition x_e1 : cert := {| c_hash := [101; 49]%N; c_names := [x_ax]; c_managed := true; c_issuer := []; c_tags := []; c_ocsp := 0%Z; c_ari := [] |}.           (* e1: a.x, expired *)
+Definition x_e2 : cert := {| c_hash := [101; 50]%N; c_names := [x_ax]; c_managed := true; c_issuer := []; c_tags := []; c_ocsp := 0%Z; c_ari := [] |}.           (* e2: a.x, its renewal *)
+Definition x_w : cert := {| c_hash := [119]%N; c_names := [x_wx; x_ip]; c_managed := false; c_issuer := []; c_tags := []; c_ocsp := 0%Z; c_ari := [] |}.         (* w: *.x and the IP *)
+Definition x_f : cert := {| c_hash := [102]%N; c_names := [x_fb]; c_managed := false; c_issuer := []; c_tags := []; c_ocsp := 0%Z; c_ari := [] |}.               (* f: f.y *)
 Definition x_names_of (h : hash) : list name :=
   if str_eqb h [101; 49]%N then [x_ax] else if str_eqb h [101; 50]%N then [x_ax]
   else if str_eqb h [119]%N then [x_wx; x_ip] else if str_eqb h [102]%N then [x_fb] else [].
@@ -470,13 +481,14 @@ Definition x_names_of (h : hash) : list name :=
 Definition x_pool : list prog :=
   [prog_cache x_e1 None; prog_cache x_w None; prog_cache x_f None;
    prog_reload [101; 49]%N x_e2 None; prog_handshake_refresh [119]%N 7%Z;
-   prog_from_cache ascii_lower ascii_space (fun _ => true) (fun _ => true) (Config [] x_fb) x_ax x_ip (fun _ => PDone)].
+   prog_from_cache ascii_lower ascii_space (fun _ => true) (fun _ => true) {| default_name := []; fallback_name := x_fb |} x_ax x_ip (fun _ => PDone)].
 (** e1 cached; the reload reads it; the handshake reads "a.x"; w cached; refresh reads w; the reload
     replaces e1 by e2; f cached; refresh writes back *)
 Definition x_sched : list nat := [0; 3; 5; 1; 4; 3; 2; 4].
 Definition x_valid (h : hash) : bool := negb (str_eqb h [101; 49]%N).
+Definition x_cfg (d f : str) : config := {| default_name := d; fallback_name := f |}.
 Definition x_lookup k cfg sni :=
-  lookup ascii_lower ascii_space (fun _ => true) x_valid (state_at 0 x_pool x_sched k) 0 cfg sni x_ip (Env false true None).
+  lookup ascii_lower ascii_space (fun _ => true) x_valid (state_at 0 x_pool x_sched k) 0 cfg sni x_ip {| name_err := false; qualifies := true; loaded := None |}.
 
 Example system_hypotheses_satisfiable :
   wf_pool x_names_of x_pool /\
@@ -488,30 +500,27 @@ Example system_hypotheses_satisfiable :
   map c_ocsp (map snd (cache (state_after 0 x_pool x_sched))) = [7; 0; 0]%Z /\
   (* atomic lookups at instants of the schedule: " A.x " at instant 3 -> e1 (all there is), at the end -> e2;
      "q.x" at instant 3 -> error, at instant 4 -> w; no SNI at the end -> the IP's certificate, not the fallback *)
-  x_lookup 3 (Config [] []) [32; 65; 46; 120; 32]%N = ROk x_e1 /\
-  x_lookup 8 (Config [] []) [32; 65; 46; 120; 32]%N = ROk x_e2 /\
-  x_lookup 3 (Config [] []) [113; 46; 120]%N = RErr /\
-  x_lookup 4 (Config [] []) [113; 46; 120]%N = ROk x_w /\
-  x_lookup 8 (Config [] x_fb) [] = ROk (set_ocsp x_w 7) /\
+  x_lookup 3 (x_cfg [] []) [32; 65; 46; 120; 32]%N = ROk x_e1 /\
+  x_lookup 8 (x_cfg [] []) [32; 65; 46; 120; 32]%N = ROk x_e2 /\
+  x_lookup 3 (x_cfg [] []) [113; 46; 120]%N = RErr /\
+  x_lookup 4 (x_cfg [] []) [113; 46; 120]%N = ROk x_w /\
+  x_lookup 8 (x_cfg [] x_fb) [] = ROk (set_ocsp x_w 7) /\
   (* a NON-atomic lookup of "a.x": first read at instant 0 (empty cache), second at instant 6: it
      answers the wildcard certificate although the exact e2 is cached at instant 6 -- sound
      (w was cached and covers a.x), but the preference for the exact name is not an invariant of
      the interleaved lookup *)
   na_from_cache ascii_lower ascii_space (fun _ => true) x_valid
-    (fun j => state_at 0 x_pool x_sched (match j with 0 => 0 | _ => 6 end)) (Config [] []) x_ax x_ip
+    (fun j => state_at 0 x_pool x_sched (match j with 0 => 0 | _ => 6 end)) (x_cfg [] []) x_ax x_ip
     = Some (x_w, true, x_wx) /\
-  from_cache ascii_lower ascii_space (fun _ => true) x_valid (state_at 0 x_pool x_sched 6) (Config [] []) x_ax x_ip
+  from_cache ascii_lower ascii_space (fun _ => true) x_valid (state_at 0 x_pool x_sched 6) (x_cfg [] []) x_ax x_ip
     = Some (x_e2, true, x_ax).
 Proof.
   split; [|vm_compute; repeat split].
-  destruct (code_paths_wf x_names_of) as (_ & Hrefresh & Hreload & _ & _ & Hcache & _ & _).
-  assert (Hw : forall c, In c [x_e1; x_e2; x_w; x_f] -> wf_cert x_names_of c).
-  { intros c [<-|[<-|[<-|[<-|[]]]]]; (split; [reflexivity | discriminate]). }
-  unfold wf_pool, x_pool. repeat apply Forall_cons; try apply Forall_nil.
-  - apply Hcache, Hw; cbn; auto.
-  - apply Hcache, Hw; cbn; auto.
-  - apply Hcache, Hw; cbn; auto.
-  - apply Hreload, Hw; cbn; auto.
-  - apply Hrefresh.
-  - apply prog_from_cache_wf. intros r. constructor.
+  assert (Hw1 : wf_cert x_names_of x_e1) by (split; [reflexivity | discriminate]).
+  assert (Hw2 : wf_cert x_names_of x_e2) by (split; [reflexivity | discriminate]).
+  assert (Hw3 : wf_cert x_names_of x_w) by (split; [reflexivity | discriminate]).
+  assert (Hw4 : wf_cert x_names_of x_f) by (split; [reflexivity | discriminate]).
+  pose proof (code_paths_wf x_names_of) as HP. decompose [and] HP. clear HP.
+  unfold wf_pool, x_pool. repeat apply Forall_cons; try apply Forall_nil; eauto.
+  apply prog_from_cache_wf. intros r. constructor.
 Qed.
